@@ -14,3 +14,5 @@ import SplinkVerif.Model.Cache
 import SplinkVerif.Model.Descriptive
 import SplinkVerif.Model.Accuracy
 import SplinkVerif.Model.Serialise
+import SplinkVerif.Model.Creators
+import SplinkVerif.Generated.CreatorWrites
